@@ -531,7 +531,89 @@ class Executor:
         if st.exc is not None:
             f = st.exc.func if isinstance(st.exc, ast.Call) else st.exc
             name = ast.unparse(f)
+        elif getattr(self, "_handled", None):
+            raise self._handled[-1]          # bare `raise` inside a handler: the exception being handled
         raise RaiseEx(name, st)
+
+    # try / except / else / finally with python's semantics at statement granularity: an exceptional exit (assert, raise, a callee whose contract exits
+    # exceptionally) leaves the state as it is at that point; handlers are matched by class name with a small table of builtin exception classes -- anything the
+    # table cannot decide is out of subset, never guessed
+    _EXC_PARENTS = {"ZeroDivisionError": "ArithmeticError", "OverflowError": "ArithmeticError", "FloatingPointError": "ArithmeticError", "IndexError": "LookupError",
+                    "KeyError": "LookupError", "ArithmeticError": "Exception", "LookupError": "Exception", "AssertionError": "Exception", "ValueError": "Exception",
+                    "TypeError": "Exception", "AttributeError": "Exception", "RuntimeError": "Exception", "NotImplementedError": "RuntimeError", "NameError": "Exception",
+                    "UnboundLocalError": "NameError", "StopIteration": "Exception", "MemoryError": "Exception", "OSError": "Exception", "Exception": "BaseException"}
+
+    def _handler_matches(self, handler, exc_name, node):
+        if handler.type is None:
+            return True
+        elts = handler.type.elts if isinstance(handler.type, ast.Tuple) else [handler.type]
+        names = []
+        for e_ in elts:
+            if isinstance(e_, ast.Name):
+                names.append(e_.id)
+            elif isinstance(e_, ast.Attribute):
+                names.append(e_.attr)
+            else:
+                raise OutOfSubset("except clause with a computed class", node)
+        tail = exc_name.split(".")[-1]
+        if tail in names:
+            return True
+        if "BaseException" in names:
+            return True
+        if tail not in self._EXC_PARENTS:
+            # an exception class the table does not know (user class, abstract callee fault): `except Exception` catches every ordinary exception class
+            if "Exception" in names:
+                return True
+            raise OutOfSubset("cannot decide whether `except %s` catches %s" % ("/".join(names), exc_name), node)
+        cur = tail
+        while cur in self._EXC_PARENTS:
+            cur = self._EXC_PARENTS[cur]
+            if cur in names:
+                return True
+        if all(n_ in self._EXC_PARENTS or n_ in ("Exception", "BaseException") for n_ in names):
+            return False
+        raise OutOfSubset("cannot decide whether `except %s` catches %s" % ("/".join(names), exc_name), node)
+
+    def s_Try(self, st, env):
+        if any(isinstance(n_, (ast.Return, ast.Break, ast.Continue)) for f_ in st.finalbody for n_ in ast.walk(f_)):
+            raise OutOfSubset("return / break / continue inside a finally block", st)
+
+        def final():
+            if st.finalbody:
+                self.exec_block(st.finalbody, env)
+        try:
+            self.exec_block(st.body, env)
+        except RaiseEx as r:
+            handler = None
+            for h in st.handlers:
+                if self._handler_matches(h, r.exc_name, st):
+                    handler = h
+                    break
+            if handler is None:
+                final()
+                raise
+            if handler.name:
+                env[handler.name] = Opaque(self.S.const("exc!%d" % len(self.trace), prelude.U))
+            self._handled = getattr(self, "_handled", []) + [r]
+            try:
+                self.exec_block(handler.body, env)
+            except (RaiseEx, ReturnEx, BreakEx, ContinueEx):
+                self._handled = self._handled[:-1]
+                final()
+                raise
+            self._handled = self._handled[:-1]
+            final()
+            return
+        except (ReturnEx, BreakEx, ContinueEx):
+            final()
+            raise
+        if st.orelse:
+            try:
+                self.exec_block(st.orelse, env)
+            except (RaiseEx, ReturnEx, BreakEx, ContinueEx):
+                final()
+                raise
+        final()
 
     def s_Assert(self, st, env):
         c = self.truth(self.eval(st.test, env))
